@@ -3,6 +3,19 @@
 import json, os
 
 CLAIMED = {
+    "C10": ("Coq proof on HB.v (schedule theorem for populate_space, bracket invariant BOK in every reachable state of the lifecycle core instantiated with Hyperband, promoted-is-winner) + differential correspondence with HyperbandOracle",
+            "C10_schedule: every trial populate_space issues carries the bracket it is placed in, its round, epochs = ceil(max_epochs/factor^(bracket-round)), initial epoch 0 in round 0 and the previous round's epochs otherwise, "
+            "a parent iff round > 0. C10_invariant: in EVERY reachable state (any number of tuners, finishing orders, score ties, failures, retries, reloads) every live or archived bracket satisfies BOK: no round above capacity, ids "
+            "and parents distinct, every promoted entry continues a COMPLETED trial of the previous round of its bracket. C10_promoted_is_winner: fewer trials of that round score strictly better than the parent than the next round has "
+            "places. Tie: HB.v evaluated inside Coq on the same multi-worker histories as the real oracle (size table read from _get_size), all tuner/* entries and lifecycle bookkeeping compared; plus the property checked directly "
+            "on the implementation's bracket book at every promotion and at the end.",
+            "Trusted: Coq kernel/vm_compute; python harness; round sizes as a table with sizes b 0 >= 1; huge search space so that sampling never collides; 'identical values' of a promoted trial is checked on the implementation.", "DESIGN.md section 6 C10"),
+    "C11": ("Coq proof (IDLE only if ongoing for every populate with that contract + the contract for the Hyperband/grid/random models; run-count invariant; termination of the sequential loop; STOPPED reasons) + fair-schedule exploration on the four real oracles",
+            "C11_idle_only_if_busy + C11_hyperband_idle/C11_grid_idle/C11_random_idle; C11_runs_bounded(_step): run counters <= max_retries+1 in every reachable state incl. reloads, hence at most (max_retries+1)*#trials runs; "
+            "C11_search_terminates; C11_stopped_reason + C11_hyperband_stopped/C11_random_stopped (and C09_stopped_complete for grid): STOPPED only when the budget is used up, the Hyperband sweep is at bracket 0 of the last iteration with no "
+            "open bracket able to take/promote a trial, the sampling loop gave up, or every grid combination was tried. Fair termination with several workers follows from these and is exercised on the real oracles: fair worker pools "
+            "run to global STOPPED under a step cap (all-fail / all-invalid patterns, spaces declared only inside trials), checking IDLE-only-with-ongoing, the run bound and a reason for every STOPPED.",
+            "Trusted: Coq kernel; the oracle models are tied to the code by the correspondences of C01/C06/C09/C10; Bayesian oracle only explored; fairness realised by the harness.", "DESIGN.md section 6 C11"),
     "C09": ("Coq proof chain on the grid model (G3/G4/GP/GQ/GR/GT2: successor, compare = rank order, oracle invariant over all runs, STOPPED => permutation of all combinations) + differential correspondence with GridSearchOracle",
             "C09_successor: _get_next_combination is the successor function of the lexicographic enumeration `combos` of the valid assignments (conditions nested to any depth); C09_compare: _compare is the order of positions; "
             "C09_invariant: the invariant GInv (ordered list strictly increasing in rank from rank 0, every element closed / pending / ongoing) holds in every state of every run - any number of tuners, any finishing order, "
